@@ -123,7 +123,7 @@ class PFindings:
 
 class PSpec:
     def __init__(self, prop, clauses, profiles, backends=ALL_BACKENDS, events=None, seq_mode="singletons",
-                 support=None, nontrivial="rows", level="model_checking", cap=None):
+                 support=None, nontrivial="rows", level="model_checking", cap=None, math=False):
         self.prop = prop
         self.clauses = set(clauses)
         self.profiles = profiles          # tier -> list of (cfg, simulate or None)
@@ -134,6 +134,7 @@ class PSpec:
         self.nontrivial = nontrivial
         self.level = level
         self.cap = cap or {"quick": 1200, "thorough": 20000}
+        self.math = math
 
 
 def make_sequences(mode, nev, rnd):
@@ -204,11 +205,34 @@ def run(spec, tier):
     rnd = random.Random(common.seed())
     mockbuild.build_all()
     uni = mockbuild.universe()
-    cases, total, exhaustive, gs, gt = build_cases(spec, tier, uni, rnd)
+    import time
+    stages = {}
+    t0 = time.time()
+    # generation can hold hundreds of MB of TLC output; do it in a child so that the processes
+    # forked per case later do not inherit (and page-copy) it
+    import multiprocessing as mp
+    with mp.get_context("fork").Pool(1) as gp:
+        cases, total, exhaustive, gs, gt = gp.apply(build_cases, (spec, tier, uni, rnd))
+    stages["generate_queries"] = round(time.time() - t0, 1)
+    t0 = time.time()
     events, er = pipeline.generate_events(spec.events[tier])
+    stages["generate_events"] = round(time.time() - t0, 1)
     seqs = make_sequences(spec.seq_mode, len(events), rnd)
+    t0 = time.time()
     recs = pipeline.run_cases(cases, events, seqs, keep_emitted=True)
-    verdicts, summaries, vs, vt = pipeline.validate(recs, events)
+    stages["translate_compile_run"] = round(time.time() - t0, 1)
+    t0 = time.time()
+    if os.environ.get("VERIF_VERBOSE"):
+        print("stages so far", stages, flush=True)
+    math_file = None
+    if spec.math:
+        import mathtable
+        math_file = os.path.join(common.scratch("verif.math."), "table.json")
+        mathtable.build(math_file)
+    verdicts, summaries, vs, vt = pipeline.validate(recs, events, math_file=math_file)
+    stages["tlc_validate"] = round(time.time() - t0, 1)
+    if os.environ.get("VERIF_VERBOSE"):
+        print("stages", stages, flush=True)
     byid = {r["id"]: r for r in recs}
     pf = PFindings(rep.findings)
     failed_cases = set()
@@ -226,6 +250,12 @@ def run(spec, tier):
     for r in recs:
         if r["compile"]["ok"] and any(ev["rows"] for run_ in r["runs"] for ev in run_["events"]):
             nontrivial.add((render.compact(r["q"]), r["backend"]))
+    fn_judged = {}
+    if spec.math:
+        for r in recs:
+            for n in _subterms(r["q"]):
+                if n["k"] == "Math":
+                    fn_judged[n["a"]] = fn_judged.get(n["a"], 0) + summaries.get(r["id"], {}).get("judged", 0)
     judged = sum(s["judged"] for s in summaries.values())
     skipped = sum(s["skipped"] for s in summaries.values())
     sample_recs = [r for r in recs if r["compile"]["ok"]][:2]
@@ -246,7 +276,9 @@ def run(spec, tier):
         "sequences_per_case": len(seqs),
         "event_evaluations_judged": judged,
         "event_evaluations_skipped_outside_domain": skipped,
+        "stage_seconds": stages,
         "clauses": sorted(spec.clauses),
+        "math_functions_judged_evaluations": fn_judged,
         "clause_failures": dict(clause_counts),
         "cases_failing": len(failed_cases),
         "backends": list(spec.backends),
